@@ -1399,7 +1399,7 @@ func main() {
 		ctx.Kind("automaton-self-check")
 	}
 
-	n := ctx.Budget(400, 9000)
+	n := ctx.Budget(400, 6000)
 	if v := os.Getenv("LIFECYCLE_RUNS"); v != "" {
 		n, _ = strconv.Atoi(v)
 	}
